@@ -77,6 +77,19 @@ def c05_one(rec, case):
     n_data = sum(1 for f in flags if f in (1, 4))
     sel = (c['form'], c['number'])
     info = make_info(chi2, flags)
+    if c.get('shuffle') is not None and len(chi2) > 1:
+        # the ranking is the one FitInfo.sort() itself produces from an unranked result (a NaN or an infinity anywhere)
+        perm = np.random.default_rng(int(c['shuffle'])).permutation(len(chi2))
+        info = make_info([chi2[i] for i in perm], flags)
+        try:
+            info.sort()
+        except Exception as e:
+            rec.fail('crash', 'sort() raised %s: %s' % (type(e).__name__, e), case)
+            return False
+        got, want = np.asarray(info.chi2, dtype=float), np.asarray(chi2, dtype=float)
+        if not rec.expect(got.shape == want.shape and bool(np.all((got == want) | (np.isnan(got) & np.isnan(want)))), 'ranked_by_sort',
+                          'sort() of %s gives %s, not the ranking %s' % ([chi2[i] for i in perm], [float(x) for x in got], chi2), case):
+            return False
     before = snapshot(info)
     try:
         info.keep(sel)
@@ -96,6 +109,9 @@ def c05_one(rec, case):
     if c.get('loose') is not None:
         loose = tuple(c['loose'])
         i2 = make_info(chi2, flags)
+        if c.get('shuffle') is not None and len(chi2) > 1:
+            i2 = make_info([chi2[i] for i in perm], flags)
+            i2.sort()
         i2.keep(loose)
         p_loose = len(i2.chi2)
         if p_loose >= p:
@@ -123,7 +139,7 @@ def run_c05(tier, seed):
                 loose = [sel[0], sel[1] + 1.5]
             elif sel[0] == 'N':
                 loose = ['N', sel[1] + 1]
-            case = dict(seed=seed, tag='c05', chi2=jsonable(chi2), flags=flags, form=sel[0], number=sel[1], loose=loose)
+            case = dict(seed=seed, tag='c05', chi2=jsonable(chi2), flags=flags, form=sel[0], number=sel[1], loose=loose, shuffle=(si + 7 * n if si % 3 == 0 else None))
             ok = c05_one(rec, case)
             rec.case(key=(tuple(jsonable(chi2)), sel), nontrivial=n > 0 and sel[0] != 'A',
                      sample=dict(chi2=jsonable(chi2), selector=list(sel), n_data=sum(1 for f in flags if f in (1, 4))) if n == 3 and si == 9 else None)
@@ -136,7 +152,7 @@ def run_c05(tier, seed):
         k = int(rng.integers(0, 3))
         chi2 = list(chi2[:n - k]) + [float('inf')] * (k // 2 + k % 2) + [float('nan')] * (k // 2)
         sel = (str(rng.choice(list('CDEF'))), float(np.round(rng.uniform(0, 8), 1) + 0.05))
-        case = dict(seed=seed, tag='c05', chi2=jsonable(chi2), flags=flag_sets[t % 3], form=sel[0], number=sel[1], loose=[sel[0], sel[1] + 2.])
+        case = dict(seed=seed, tag='c05', chi2=jsonable(chi2), flags=flag_sets[t % 3], form=sel[0], number=sel[1], loose=[sel[0], sel[1] + 2.], shuffle=(t if t % 2 else None))
         c05_one(rec, case)
         rec.case(key=('long', t), nontrivial=True)
     # n_data follows the flags it is asked about now, not the ones at construction
